@@ -1,12 +1,14 @@
 package checks
 
 import (
+	"bytes"
 	"fmt"
 	"math"
 	"math/big"
 	"reflect"
 	"strings"
 	"testing"
+	"testing/iotest"
 
 	"github.com/amzn/ion-go/ion"
 	"pgregory.net/rapid"
@@ -22,7 +24,7 @@ type C17Case struct {
 	T      drive.TypeDesc `json:"t"`
 	Val    model.Value    `json:"val"`
 	Binary bool           `json:"binary"`
-	Via    int            `json:"via"` // 0 Unmarshal, 1 UnmarshalString (text), 2 Decoder.DecodeTo
+	Via    int            `json:"via"` // 0 Unmarshal, 1 UnmarshalString (text), 2 Decoder.DecodeTo, 3 UnmarshalFrom, 4 NewTextDecoder, 5 System.Unmarshal, 6 System.UnmarshalString (text)
 }
 
 // verdict is what the reference conversion table allows for one cell.
@@ -321,7 +323,7 @@ func runC17(c C17Case) string {
 		"cell."+cell, "target."+strings.SplitN(c.T.K, ":", 2)[0], "ion."+c.Val.Kind.String(), map[bool]string{true: "binary", false: "text"}[c.Binary])
 	st.Sample(func() string { return fmt.Sprintf("%s into %s (%s)", c.Val.String(), typ.String(), cell) })
 	desc := func() string {
-		return fmt.Sprintf("\nIon value: %s (%s)\ntarget type: %s\nvia: %s", c.Val.String(), map[bool]string{true: "binary", false: "text"}[c.Binary], typ.String(), []string{"Unmarshal", "UnmarshalString", "Decoder.DecodeTo"}[c.Via])
+		return fmt.Sprintf("\nIon value: %s (%s)\ntarget type: %s\nvia: %s", c.Val.String(), map[bool]string{true: "binary", false: "text"}[c.Binary], typ.String(), c17Vias[c.Via])
 	}
 	return drive.Guard2(func() string {
 		target := reflect.New(typ)
@@ -331,6 +333,14 @@ func runC17(c C17Case) string {
 			err = ion.UnmarshalString(string(data), target.Interface())
 		case 2:
 			err = ion.NewDecoder(ion.NewReaderBytes(data)).DecodeTo(target.Interface())
+		case 3:
+			err = ion.UnmarshalFrom(ion.NewReader(bytes.NewReader(data)), target.Interface())
+		case 4:
+			err = ion.NewTextDecoder(iotest.OneByteReader(bytes.NewReader(data))).DecodeTo(target.Interface())
+		case 5:
+			err = ion.System{Catalog: ion.NewCatalog()}.Unmarshal(data, target.Interface())
+		case 6:
+			err = ion.System{Catalog: ion.NewCatalog()}.UnmarshalString(string(data), target.Interface())
 		default:
 			err = ion.Unmarshal(data, target.Interface())
 		}
@@ -486,7 +496,7 @@ func c17Targets() []drive.TypeDesc {
 }
 
 func genC17(t *rapid.T) C17Case {
-	c := C17Case{Binary: gen.Chance(t, 50), Via: gen.Intn(t, 3)}
+	c := C17Case{Binary: gen.Chance(t, 50), Via: gen.Intn(t, 7)}
 	c.T = gen.Pick(t, c17Targets())
 	switch gen.Intn(t, 4) {
 	case 0:
@@ -504,8 +514,8 @@ func genC17(t *rapid.T) C17Case {
 	if isWrapper(c.T) && gen.Chance(t, 70) && !c.Val.IsNull {
 		c.Val.Ann = []model.Sym{model.S(gen.Pick(t, []string{"a", "b", "x y"}))}
 	}
-	if c.Binary && c.Via == 1 {
-		c.Via = 0
+	if c.Binary && (c.Via == 1 || c.Via == 6) {
+		c.Via -= 1
 	}
 	if gen.IsSystemValue(c.Val) {
 		c.Val.Ann = nil
@@ -535,6 +545,8 @@ func uniqueFields(v model.Value) model.Value {
 }
 
 // ---- Decoder over a stream
+
+var c17Vias = []string{"Unmarshal", "UnmarshalString", "Decoder.DecodeTo", "UnmarshalFrom", "NewTextDecoder(one byte per Read).DecodeTo", "System.Unmarshal", "System.UnmarshalString"}
 
 type C17Stream struct {
 	Vals   []model.Value `json:"vals"`
@@ -668,7 +680,7 @@ func TestC17(t *testing.T) {
 
 func init() {
 	Describe("C17",
-		"cases: (Ion value, target Go type, format, entry point): the exhaustive matrix of ~125 exemplar values (29 integer boundaries up to 2^128, every typed null, float32 / float64 boundaries incl. just above MaxFloat32, NaN, infinities, decimals, timestamps of several precisions, symbols with / without text, strings, lobs of several lengths, lists / sexps / structs of scalars incl. mixed, nested and out-of-range elements) x 75 target types (bool, every integer width, uintptr, float32/64, string, []byte, [4]byte, Timestamp, time.Time, Decimal, big.Int, SymbolToken, interface{}, a non-empty interface, and pointer / pointer-to-pointer / slice / array / map / struct / annotation-wrapper shapes over 7 element types) x {text via UnmarshalString, binary via Unmarshal, binary via Decoder.DecodeTo}; plus random values and random integers against the same targets; plus Decoder streams of 0-6 values. Non-trivial: off-diagonal cell, boundary number or typed null. Distinct by digest(value, target, format, entry).",
+		"cases: (Ion value, target Go type, format, entry point): the exhaustive matrix of ~125 exemplar values (29 integer boundaries up to 2^128, every typed null, float32 / float64 boundaries incl. just above MaxFloat32, NaN, infinities, decimals, timestamps of several precisions, symbols with / without text, strings, lobs of several lengths, lists / sexps / structs of scalars incl. mixed, nested and out-of-range elements) x 75 target types (bool, every integer width, uintptr, float32/64, string, []byte, [4]byte, Timestamp, time.Time, Decimal, big.Int, SymbolToken, interface{}, a non-empty interface, and pointer / pointer-to-pointer / slice / array / map / struct / annotation-wrapper shapes over 7 element types) x {text via UnmarshalString, binary via Unmarshal, binary via Decoder.DecodeTo}; plus random values (entry points also UnmarshalFrom, NewTextDecoder over a one-byte-per-Read source, System.Unmarshal / UnmarshalString) and random integers against the same targets; plus Decoder streams of 0-6 values. Non-trivial: off-diagonal cell, boundary number or typed null. Distinct by digest(value, target, format, entry).",
 		"oracle: reference conversion table with three verdicts per cell: must-store (the stored Go value, described by the harness's own reflection walk, equals the expected value), must-error (integer outside the target's width or sign, finite float beyond float32, symbol without text into string, any type mismatch: an error and never a stored result), either (a typed null leaving the zero value, surplus list elements or lob bytes dropped for a fixed-size array, float into Decimal, case-insensitive field-name fallback, an annotated struct into a wrapper); never a panic. Decoder: n successful Decode / DecodeTo calls in order, then ErrNoInput on each further call",
 		"stored values are compared under C16's semantic equality (nil vs empty collections, time.Time by instant); struct values for map / interface{} targets have unique field names with known text",
 	)
